@@ -54,6 +54,34 @@ class ArgModel(torch.nn.Module):
 		return self.act(h)
 
 
+class BNTail(torch.nn.Module):
+	"""body followed by a BatchNorm over the outputs.  Before every call the
+	model is put into a mixed state (root in eval mode, the batch-norm layer
+	in train mode): deep_lift_shap must evaluate it in eval mode, otherwise
+	the result depends on the batch composition and the running statistics
+	drift from call to call."""
+
+	def __init__(self, body, n_out, seed):
+		super().__init__()
+		self.body = body
+		self.bn = torch.nn.BatchNorm1d(n_out, dtype=torch.float64)
+		g = torch.Generator().manual_seed(seed)
+		with torch.no_grad():
+			self.bn.running_mean.copy_(torch.randn(n_out, generator=g,
+				dtype=torch.float64))
+			self.bn.running_var.copy_(torch.rand(n_out, generator=g,
+				dtype=torch.float64) + 0.5)
+			self.bn.weight.copy_(torch.randn(n_out, generator=g,
+				dtype=torch.float64))
+
+	def forward(self, X, *args):
+		return self.bn(self.body(X, *args))
+
+	def mix(self):
+		self.eval()
+		self.bn.train()
+
+
 def rel_close(a, b, tol=1e-10):
 	if a.shape != b.shape:
 		return False
@@ -90,6 +118,9 @@ def run_case(cls, params, rec):
 				b = torch.full((n, 1), -1 + 1e-3, dtype=torch.float64)
 				b[params["scale_outlier"] % n] = 1e7
 			args = (a, b)
+	if params.get("bn_train"):
+		model = BNTail(model, dls.n_targets(spec), params["wseed"] + 2)
+		rec.count("bn_mixed_mode_models")
 	refmode = params["refmode"]
 	mode = params["mode"]
 	kw = dict(target=params["target"], device="cpu")
@@ -116,6 +147,8 @@ def run_case(cls, params, rec):
 		if refmode == "tensor":
 			k2["references"] = kw["references"][idx]
 		a2 = None if args is None else tuple(a[idx] for a in args)
+		if params.get("bn_train"):
+			model.mix()
 		mon = gen.Immutable(X=xa, **({} if a2 is None else {"arg%d" % q: t
 			for q, t in enumerate(a2)}))
 		st, val = gen.call(deep_lift_shap, model, xa, args=a2,
@@ -262,7 +295,7 @@ def gen_case(seed, k):
 		"random_state": r.randrange(1000),
 		"batch_size": r.randint(1, n * ns + 1),
 		"scale_outlier": (1 + k) if k % 4 == 2 else 0,
-		"prior_override_call": k % 4 == 1}
+		"prior_override_call": k % 4 == 1, "bn_train": k % 4 == 3}
 
 
 def plan(tier, seed):
